@@ -9,6 +9,7 @@
 import NxsModel.Handshake
 import NxsModel.Reasm
 import NxsModel.Lemmas.Handshake
+import NxsModel.Lemmas.SerialLawful
 namespace Nxs.C10
 open Nxs Nxs.Handshake
 
@@ -70,6 +71,80 @@ theorem recv_body_returns (c : Codec) (fuel : Nat) (buf : Bytes) (rs : List Byte
 theorem recv_body_idle (c : Codec) (fuel : Nat) (buf : Bytes) (h : buf.length < c.hdrLen) :
     Reasm.readFrame c (fuel + 1) buf [] = (none, buf, []) :=
   Reasm.readFrame_idle c fuel buf h
+
+/-! ### one invocation of the receive-thread body makes a bounded number of reads (noise included)
+
+`CommHandler._recv_thread` runs `_read_frame` once per turn of the thread loop and looks at the stop
+flag between turns.  Since the repair of `_read_hdr` (an undecodable header drops one byte and
+RETURNS instead of `continue`-ing) no loop inside the body can be kept alive by what the link
+delivers: the theorems below bound the number of `intf.read()` calls of ONE invocation by the
+header length and the declared frame length only — not by the length of the script, i.e. also
+under a never-ending noise source.  No assumption on the fuel, on the chunk sizes or on the
+buffer is needed (empty reads and less fuel only make the body return earlier). -/
+
+/-- the reads left after one invocation are a suffix of the script; the number `k` of reads
+    consumed is at most `(hdr_len − |_prev_read|) + (hdr_len − 1) + (F − hdr_len)`, where `F` is the
+    total frame length declared by the header `_read_hdr` decoded in this invocation (0 if none):
+    first fill to `hdr_len` bytes, at most one re-entry with an incomplete candidate (which then
+    starts with the start byte, so no second re-entry), then the rest of the frame -/
+theorem recv_body_reads_prefix (c : Codec) (hc : LawfulCodec c) (fuel : Nat) (buf : Bytes) (rs : List Bytes) :
+    ∃ k, (Reasm.readFrame c fuel buf rs).2.2 = rs.drop k ∧
+      k ≤ (c.hdrLen - buf.length) + (c.hdrLen - 1) +
+        (Reasm.declaredLen (Reasm.readHdr c fuel buf rs) - c.hdrLen) :=
+  Reasm.readFrame_reads hc fuel buf rs
+
+/-- the number of `intf.read()` calls of one invocation of `_read_frame` is at most
+    `2·hdr_len − 1 + (F − hdr_len)` (= `max (2·hdr_len − 1) (hdr_len + F − 1)`), `F` = the frame
+    length declared by the header decoded in this invocation, 0 if none — independent of how long
+    the script (the noise) is.  So `_recv_thread` is back at its `while not stop` test after a
+    bounded number of reads, each of which returns within the interface's read timeout.
+
+    Remark: the bound `hdr_len + F + 1` is NOT valid in general: with one-byte reads, three noise
+    bytes and then a start byte make `_read_hdr` keep the 1-byte candidate and read `hdr_len − 1`
+    more, i.e. `2·hdr_len − 1` reads even when no header is decoded (`F = 0`); see the `example`s
+    below (7 reads for the serial codec).  `2·hdr_len − 1 + (F − hdr_len)` is attained. -/
+theorem recv_body_reads_bounded (c : Codec) (hc : LawfulCodec c) (fuel : Nat) (buf : Bytes) (rs : List Bytes) :
+    rs.length - (Reasm.readFrame c fuel buf rs).2.2.length ≤
+      2 * c.hdrLen - 1 + (Reasm.declaredLen (Reasm.readHdr c fuel buf rs) - c.hdrLen) := by
+  obtain ⟨k, h1, h2⟩ := recv_body_reads_prefix c hc fuel buf rs
+  rw [h1, List.length_drop]
+  omega
+
+/-- serial codec, sharp form: `hdr_len` = 4 and the length field is two bytes (`F ≤ 65535`), so one
+    invocation makes at most `7 + 65531` reads.  (`LawfulCodec` is needed in the general theorem
+    only for "`hdr_find` returns the FIRST start byte": a `hdr_find` that kept pointing past the
+    start of the buffer would re-enter `_read_hdr` again and again; the serial codec honours it.) -/
+theorem serial_recv_body_reads_le (fuel : Nat) (buf : Bytes) (rs : List Bytes) :
+    rs.length - (Reasm.readFrame Serial.codec fuel buf rs).2.2.length ≤ 7 + 65531 := by
+  have h := recv_body_reads_bounded Serial.codec Serial.codec_lawful fuel buf rs
+  have hF := Reasm.serial_declaredLen_lt fuel buf rs
+  have hl : Serial.codec.hdrLen = 4 := rfl
+  rw [hl] at h
+  omega
+
+/-- serial codec (`hdr_len` = 4, two-byte length field so `F ≤ 65535`): one invocation of the
+    receive-thread body makes at most `4 + 65535 + 1` reads, whatever the link delivers (the sharper
+    `7 + 65531` is `serial_recv_body_reads_le`) -/
+theorem serial_recv_body_reads_bounded (fuel : Nat) (buf : Bytes) (rs : List Bytes) :
+    rs.length - (Reasm.readFrame Serial.codec fuel buf rs).2.2.length ≤ 4 + 65535 + 1 := by
+  have := serial_recv_body_reads_le fuel buf rs
+  omega
+
+/-- not vacuous — a noise source of start bytes, one per read: the invocation returns after 4 of the
+    12 reads, with one byte dropped and nothing delivered (before the repair it consumed all 12) -/
+example :
+    let rs : List Bytes := List.replicate 12 [0x55]
+    Reasm.readFrame Serial.codec (Reasm.fuelFor [] rs) [] rs =
+      (none, [0x55, 0x55, 0x55], List.replicate 8 [0x55]) := by
+  decide +kernel
+
+/-- the bound is attained, and `hdr_len + F + 1` would be wrong: three noise bytes, a start byte,
+    then an undecodable rest of header, one byte per read: 7 = 2·4 − 1 reads, no header decoded -/
+example :
+    let rs : List Bytes := [[1], [2], [3], [0x55], [0], [0], [0xff], [9], [9], [9]]
+    Reasm.readFrame Serial.codec (Reasm.fuelFor [] rs) [] rs = (none, [0, 0, 0xff], [[9], [9], [9]]) ∧
+    Reasm.declaredLen (Reasm.readHdr Serial.codec (Reasm.fuelFor [] rs) [] rs) = 0 := by
+  decide +kernel
 
 /-- the statements of the receive loop that `recv_body_returns` relies on are present in the current
     source (regenerated facts): an empty read stores the buffer and returns; `_read_frame` breaks out of
